@@ -74,11 +74,14 @@ func main() {
 				dirIf = s
 				continue
 			}
-			// a symlink test on the top-level entry that returns copySymlink / os.Symlink
-			if dirIf != nil && (strings.Contains(src, "ModeSymlink") || strings.Contains(src, "IsSymlink")) &&
-				(strings.Contains(f.Src(s.Body), "copySymlink(") || strings.Contains(f.Src(s.Body), "os.Symlink(")) {
-				topSymlinkAware = true
-				continue
+			// a symlink test on the top-level entry, of exactly this form, whose body is `return copySymlink(from, to)`
+			if dirIf != nil && s.Else == nil && s.Init == nil && len(s.Body.List) == 1 &&
+				(src == infoVar+".Mode()&os.ModeSymlink != 0" || src == "("+infoVar+".Mode() & os.ModeSymlink) != 0") {
+				if ce, ok := retCall(s.Body.List[0]); ok && sel(ce.Fun) == "copySymlink" && len(ce.Args) == 2 &&
+					sel(ce.Args[0]) == from && sel(ce.Args[1]) == to {
+					topSymlinkAware = true
+					continue
+				}
 			}
 		case *ast.ReturnStmt:
 			if ce, ok := retCall(s); ok && i == len(fn.Body.List)-1 && sel(ce.Fun) == "CopyOrLinkFile" && len(ce.Args) == 6 &&
@@ -192,12 +195,16 @@ func main() {
 	ws := g.Src(g.Func("WriteFile").Body)
 	tempThenRename := strings.Contains(ws, "os.CreateTemp(dir, file)") && strings.Contains(ws, "os.Chmod(tempFile.Name(), mode)") &&
 		strings.Contains(ws, "return renameFile(tempFile.Name(), to)")
+	writesInPlace := strings.Contains(ws, "os.Create(to)") || strings.Contains(ws, "os.OpenFile(to")
+	if !tempThenRename && !writesInPlace {
+		xlib.Unreadable("WriteFile: neither the temp-file-and-rename shape nor an in-place os.Create/OpenFile(to)")
+	}
 	cfs := g.Src(g.Func("CopyFile").Body)
 	copyOpens := strings.Contains(cfs, "os.Open(from)") && strings.Contains(cfs, "return WriteFile(fromFile, to, mode)")
 
 	for what, ok := range map[string]bool{"CopyOrLinkFile starts with `if link {`": linkGuard,
 		"CopyOrLinkFile: os.Link then `err == nil || !fallback`": linkThenFallback, "CopyOrLinkFile ends with CopyFile(from, to, toMode)": endsWithCopy,
-		"WriteFile: temp file, chmod, rename": tempThenRename, "CopyFile opens from and calls WriteFile": copyOpens,
+		"CopyFile opens from and calls WriteFile": copyOpens,
 		"WriteFile default mode literal": defaultMode >= 0, "callback computes dest": destExpr != ""} {
 		if !ok {
 			xlib.Unreadable("shape not recognised: %s", what)
@@ -213,6 +220,7 @@ func main() {
 	out.Def("fallbackUsesSourceMode", "Bool", xlib.LeanBool(fallbackSourceMode))
 	out.Def("symlinkVerbatim", "Bool", xlib.LeanBool(symlinkVerbatim))
 	out.Def("defaultMode", "Nat", strconv.Itoa(defaultMode))
+	out.Def("tempThenRename", "Bool", xlib.LeanBool(tempThenRename))
 	out.Def("recursiveCopyArgs", "String", xlib.LeanStr(rcArgs))
 	out.Def("recursiveLinkArgs", "String", xlib.LeanStr(rlArgs))
 	out.Write()
